@@ -114,9 +114,15 @@ def check(ctx):
     # by interpretation: three registered handlers, the first and third flagged -> exactly the second stays, in place
     from ..absint import Interp as _I, Obj as _O, PyRaise as _PR, Undecided as _UD
     hs = [_O(None, {"should_remove_handler": f, "_should_remove_handler": f}, name=f"h{i}") for i, f in enumerate((True, False, True, False))]
-    sock_obj = _O(repo.cls(SOCK), {"_receive_handlers": list(hs), "_send_handlers": [], "_lock": _O(None, name="lock")})
+    from ..absint import ClassRef as _CR
+    _it = _I(repo)
     try:
-        _I(repo).call(cl, sock_obj, [])
+        sock_obj = _it.apply(_CR(repo.cls(SOCK)), [], {})   # the socket as its own constructor leaves it (busy counter, locks, queues)
+    except (_PR, _UD) as e:
+        raise AnalysisError(f"{SOCK}() cannot be constructed by interpretation: {e}")
+    sock_obj.attrs["_receive_handlers"] = list(hs)
+    try:
+        _it.call(cl, sock_obj, [])
         left = sock_obj.attrs.get("_receive_handlers")
         ok = isinstance(left, list) and len(left) == 2 and left[0] is hs[1] and left[1] is hs[3]
         why = f"{[getattr(x, 'name', x) for x in left] if isinstance(left, list) else left}"
